@@ -6,7 +6,9 @@ import (
 	"go/token"
 	"go/types"
 	"sort"
+	"strings"
 
+	"golang.org/x/tools/go/packages"
 	"golang.org/x/tools/go/ssa"
 
 	"regexlint/internal/core"
@@ -1208,5 +1210,143 @@ func RFoldExit(c *core.Ctx) {
 	})
 	if n == 0 {
 		c.Anchor("break statements in the evaluator loops of replace()")
+	}
+}
+
+// ---------------------------------------------------------------------------
+// R-SCRATCH: a scratch buffer that serves every iteration starts each one empty.
+// A bytes.Buffer / strings.Builder declared before a loop, filled inside it and
+// read back in the same iteration (Bytes / String / Len) describes "this
+// iteration's data" only if it is Reset (or re-created) before the fill;
+// otherwise iteration k sees the leftovers of iterations 1..k-1 — the common
+// prefix of an alternation is then computed against branch 2's text for every
+// later branch.
+// ---------------------------------------------------------------------------
+
+func RScratch(c *core.Ctx) {
+	c.Rule("R-SCRATCH", "in packages syntax and regexp2 every bytes.Buffer / strings.Builder that is declared outside a loop, filled inside the loop body (a Write… call or being passed to a callee) and read back inside the same body outside a return statement (Bytes / String / Len) is emptied somewhere in the body (Reset, Truncate or re-assignment: before the fill, or after its content was consumed)", 1)
+	p := c.P
+	n := 0
+	for _, pk := range []*packages.Package{p.Pkg("syntax"), p.Pkg("")} {
+		info := pk.TypesInfo
+		for _, fd := range p.FuncDecls(pk) {
+			if fd.Body == nil || p.IsTestFile(fd.Pos()) {
+				continue
+			}
+			name := core.DeclName(pk, fd)
+			isBuf := func(obj types.Object) bool {
+				if obj == nil {
+					return false
+				}
+				_, nm := core.NamedOf(obj.Type())
+				return nm == "Buffer" || nm == "Builder"
+			}
+			var loops []ast.Stmt
+			ast.Inspect(fd.Body, func(x ast.Node) bool {
+				switch x.(type) {
+				case *ast.ForStmt, *ast.RangeStmt:
+					loops = append(loops, x.(ast.Stmt))
+				}
+				return true
+			})
+			for _, lp := range loops {
+				var body *ast.BlockStmt
+				switch l := lp.(type) {
+				case *ast.ForStmt:
+					body = l.Body
+				case *ast.RangeStmt:
+					body = l.Body
+				}
+				// buffers used in the body but declared outside the loop
+				type use struct {
+					firstFill, firstRead, firstReset token.Pos
+				}
+				uses := map[types.Object]*use{}
+				get := func(obj types.Object) *use {
+					if uses[obj] == nil {
+						uses[obj] = &use{}
+					}
+					return uses[obj]
+				}
+				min := func(a *token.Pos, b token.Pos) {
+					if *a == token.NoPos || b < *a {
+						*a = b
+					}
+				}
+				inReturn := map[token.Pos]bool{}
+				ast.Inspect(body, func(x ast.Node) bool {
+					if ret, ok := x.(*ast.ReturnStmt); ok {
+						ast.Inspect(ret, func(z ast.Node) bool {
+							if z != nil {
+								inReturn[z.Pos()] = true
+							}
+							return true
+						})
+					}
+					return true
+				})
+				ast.Inspect(body, func(x ast.Node) bool {
+					switch y := x.(type) {
+					case *ast.CallExpr:
+						if se, ok := y.Fun.(*ast.SelectorExpr); ok {
+							if id, ok := ast.Unparen(se.X).(*ast.Ident); ok && isBuf(info.ObjectOf(id)) {
+								obj := info.ObjectOf(id)
+								if obj.Pos() >= lp.Pos() && obj.Pos() < lp.End() {
+									return true
+								}
+								switch {
+								case strings.HasPrefix(se.Sel.Name, "Write"):
+									min(&get(obj).firstFill, y.Pos())
+								case se.Sel.Name == "Reset" || se.Sel.Name == "Truncate":
+									min(&get(obj).firstReset, y.Pos())
+								case se.Sel.Name == "Bytes" || se.Sel.Name == "String" || se.Sel.Name == "Len":
+									if !inReturn[y.Pos()] { // the final value of an accumulator returned from inside the loop is not a per-iteration read
+										min(&get(obj).firstRead, y.Pos())
+									}
+								}
+							}
+						}
+						for _, a := range y.Args {
+							if id, ok := ast.Unparen(a).(*ast.Ident); ok && isBuf(info.ObjectOf(id)) {
+								obj := info.ObjectOf(id)
+								if !(obj.Pos() >= lp.Pos() && obj.Pos() < lp.End()) {
+									min(&get(obj).firstFill, y.Pos())
+								}
+							}
+							if ue, ok := ast.Unparen(a).(*ast.UnaryExpr); ok && ue.Op == token.AND {
+								if id, ok := ast.Unparen(ue.X).(*ast.Ident); ok && isBuf(info.ObjectOf(id)) {
+									obj := info.ObjectOf(id)
+									if !(obj.Pos() >= lp.Pos() && obj.Pos() < lp.End()) {
+										min(&get(obj).firstFill, y.Pos())
+									}
+								}
+							}
+						}
+					case *ast.AssignStmt:
+						for _, l := range y.Lhs {
+							if id, ok := ast.Unparen(l).(*ast.Ident); ok && isBuf(info.ObjectOf(id)) {
+								min(&get(info.ObjectOf(id)).firstReset, y.Pos())
+							}
+						}
+					}
+					return true
+				})
+				for obj, u := range uses {
+					if u.firstFill == token.NoPos || u.firstRead == token.NoPos {
+						continue
+					}
+					// an accumulator that is only read after the loop is not concerned; this one is read inside
+					n++
+					c.Visit(name)
+					// emptied before the fill, or emptied after having been consumed (flush idiom): either way an iteration never
+					// sees data it did not itself put there or deliberately carried over
+					c.Check(u.firstReset != token.NoPos, fmt.Sprintf("%s / scratch buffer %s is emptied at the start of each iteration", name, obj.Name()), lp.Pos(),
+						"%s is filled and read back inside the loop at %s but never emptied in it: from the second iteration on it still holds the previous iterations' data", obj.Name(), p.Pos(lp.Pos()))
+				}
+			}
+		}
+	}
+	if n == 0 {
+		c.Anchor("scratch buffers filled and read inside a loop")
 	}
 }
